@@ -49,6 +49,7 @@ struct Row { id: String, ent: u64, room: u64, author: u64, children: Vec<usize>,
 struct Scn {
     defs: Vec<(u64, Vec<Ev>)>,       // model events per room (dates = clock at the mutation)
     room_ids: HashMap<u64, String>,  // model room index -> base64 uid
+    auth_ids: HashMap<u64, HashMap<u64, String>>, // room -> group index -> base64 uid of the sys.Authorisation
     rows: Vec<Row>,
 }
 fn ename(e: u64) -> String { format!("ns.E{}", e) }
@@ -60,12 +61,16 @@ async fn dump(a: &Inst) -> String {
     a.db.query("query { ns.E1(order_by(id asc), nullable(subs)){ id room_id mdate verifying_key name subs(order_by(id asc)){ id } } ns.E2(order_by(id asc)){ id room_id mdate verifying_key name } ns.E3(order_by(id asc)){ id room_id mdate verifying_key name } }", None).await.expect("dump query")
 }
 
+async fn dump_rooms(a: &Inst) -> String {
+    a.db.query("query { sys.Room(order_by(id asc), nullable(admin, authorisations)){ id mdate admin(order_by(id asc)){ id mdate verif_key enabled } authorisations(order_by(id asc), nullable(rights, users, user_admin)){ id mdate name rights(order_by(id asc)){ id mdate entity mutate_self mutate_all } users(order_by(id asc)){ id mdate verif_key enabled } user_admin(order_by(id asc)){ id mdate verif_key enabled } } } }", None).await.expect("room dump query")
+}
+
 fn key_b64(k: u64, a: &Inst, b: &Inst) -> String {
     match k { A => base64_encode(&a.vk), B => base64_encode(&b.vk), _ => base64_encode(&[1u8, 77, k as u8, 5, 5, 5, 5, 5, 5, 5, 5, 5, 5, 5, 5, 5, 5, 5, 5, 5, 5, 5, 5, 5, 5, 5, 5, 5, 5, 5, 5, 5, 5]) }
 }
 
 /// B defines a room by real mutations, one per event, at the event's date
-async fn define_room(rng: &mut Rng, rid: u64, a: &Inst, b: &Inst, clock: &mut i64) -> (String, Vec<Ev>, Vec<i64>) {
+async fn define_room(rng: &mut Rng, rid: u64, a: &Inst, b: &Inst, clock: &mut i64) -> (String, Vec<Ev>, Vec<i64>, HashMap<u64, String>) {
     let d0 = *clock;
     verif_clock::set(d0);
     let mut p = Parameters::default();
@@ -78,8 +83,10 @@ async fn define_room(rng: &mut Rng, rid: u64, a: &Inst, b: &Inst, clock: &mut i6
     auth_ids.insert(9, base64_encode(&ri.sub_nodes.get("authorisations").unwrap()[0].node_to_mutate.id));
     let mut evs = vec![Ev::Admin(B, d0, true), Ev::Group(9), Ev::Right(9, 0, d0, true, true)];
     let mut dates = vec![d0];
-    let n = 3 + rng.below(8);
-    for _ in 0..n {
+    let n = 4 + rng.below(8);
+    let a_admin_early = rng.chance(1, 2);
+    let a_uadmin_early = rng.chance(1, 3);
+    for step in 0..n {
         // (two entries of one key at the same millisecond are ordered differently by an importing peer: C10's business)
         *clock += match rng.below(5) { 0 | 1 => 1, 2 => 1000, 3 => 3_600_000, _ => DAY };
         let d = *clock;
@@ -93,7 +100,10 @@ async fn define_room(rng: &mut Rng, rid: u64, a: &Inst, b: &Inst, clock: &mut i6
             (Ev::Group(g), format!(r#"mutate {{ sys.Room{{ id:$r authorisations:[{{ name:"g{g}" }}] }} }}"#))
         } else {
             p.add("g", auth_ids[&g].clone()).unwrap();
-            match rng.below(10) {
+            // membership profiles of the caller: early admin (1/2), early user admin of a group (1/3)
+            let choice = if step == 2 && a_admin_early { 0 } else if step == 3 && a_uadmin_early { 4 } else { rng.below(10) };
+            let (k, en) = if (step == 2 && a_admin_early) || (step == 3 && a_uadmin_early) { (A, true) } else { (k, en) };
+            match choice {
                 0 => { p.add("k", key_b64(k, a, b)).unwrap(); p.add("en", en).unwrap();
                        (Ev::Admin(k, d, en), r#"mutate { sys.Room{ id:$r admin:[{verif_key:$k enabled:$en}] } }"#.to_string()) }
                 1..=3 => { p.add("k", key_b64(k, a, b)).unwrap(); p.add("en", en).unwrap();
@@ -119,7 +129,7 @@ async fn define_room(rng: &mut Rng, rid: u64, a: &Inst, b: &Inst, clock: &mut i6
         }
     }
     let _ = rid;
-    (room_id, evs, dates)
+    (room_id, evs, dates, auth_ids)
 }
 
 /// A receives the current definition of the room from B (one definition entry at a time: a fresh
@@ -172,11 +182,12 @@ async fn scenario(rng: &mut Rng, out: &mut Out, sidx: usize) {
     let a = start(&format!("a{sidx}")).await;
     let b = start(&format!("b{sidx}")).await;
     let mut clock = BASE + rng.range(0, 5) * 3_600_000;
-    let mut scn = Scn { defs: vec![], room_ids: HashMap::new(), rows: vec![] };
+    let mut scn = Scn { defs: vec![], room_ids: HashMap::new(), auth_ids: HashMap::new(), rows: vec![] };
     let mut all_dates = vec![];
     for rid in 1..=2u64 {
-        let (room_id, evs, dates) = define_room(rng, rid, &a, &b, &mut clock).await;
+        let (room_id, evs, dates, auth_ids) = define_room(rng, rid, &a, &b, &mut clock).await;
         scn.room_ids.insert(rid, room_id);
+        scn.auth_ids.insert(rid, auth_ids);
         scn.defs.push((rid, evs));
         all_dates.extend(dates);
         clock += 1000;
@@ -210,7 +221,6 @@ async fn scenario(rng: &mut Rng, out: &mut Out, sidx: usize) {
         transfer(&a, &b, &scn.room_ids[&rid], &ids).await;
     }
     all_dates.push(clock);
-    let defs = defs_coq(&scn.defs);
 
     // A's operations
     let nops = 10 + rng.below(6);
@@ -218,8 +228,10 @@ async fn scenario(rng: &mut Rng, out: &mut Out, sidx: usize) {
         let now = match rng.below(6) { 0 => *rng.pick(&all_dates) + rng.range(-1, 1), 1 => *rng.pick(&all_dates), _ => { clock += rng.range(1, 5000); clock } };
         verif_clock::set(now);
         let alive: Vec<usize> = (0..scn.rows.len()).filter(|i| scn.rows[*i].alive).collect();
+        let defs = defs_coq(&scn.defs);
         let before = dump(&a).await;
-        let kind = rng.below(9);
+        let before_rooms = dump_rooms(&a).await;
+        let kind = rng.below(12);
         let (coq, refused, opname): (String, bool, &str);
         match kind {
             0 | 1 => { // create (plain or nested)
@@ -254,8 +266,9 @@ async fn scenario(rng: &mut Rng, out: &mut Out, sidx: usize) {
                 let dest = if mv { 3 - row.room } else { row.room };
                 let mut p = Parameters::default();
                 p.add("id", row.id.clone()).unwrap();
-                let text = if mv { p.add("r", scn.room_ids[&dest].clone()).unwrap(); format!(r#"mutate {{ ns.E{}{{ id:$id room_id:$r name:"moved" }} }}"#, row.ent) }
-                           else { format!(r#"mutate {{ ns.E{}{{ id:$id name:"updated" }} }}"#, row.ent) };
+                let text = if mv { p.add("r", scn.room_ids[&dest].clone()).unwrap(); format!(r#"mutate {{ ns.E{}{{ id:$id room_id:$r name:$nm }} }}"#, row.ent) }
+                           else { format!(r#"mutate {{ ns.E{}{{ id:$id name:$nm }} }}"#, row.ent) };
+                p.add("nm", format!("upd-{}", out.n)).unwrap();
                 let res = a.db.mutate_raw(&text, Some(p)).await;
                 coq = format!("CMut {} {} [{}]", defs, gn(A), ment(head(row.ent, Some(dest), now, true, Some((row.room, row.author))), vec![]));
                 refused = res.is_err();
@@ -271,7 +284,8 @@ async fn scenario(rng: &mut Rng, out: &mut Out, sidx: usize) {
                 let mut p = Parameters::default();
                 p.add("p", pr.id.clone()).unwrap();
                 p.add("c", cr.id.clone()).unwrap();
-                let res = a.db.mutate_raw(r#"mutate { ns.E1{ id:$p subs:[{ id:$c name:"via-parent" }] } }"#, Some(p)).await;
+                p.add("nm", format!("via-parent-{}", out.n)).unwrap();
+                let res = a.db.mutate_raw(r#"mutate { ns.E1{ id:$p subs:[{ id:$c name:$nm }] } }"#, Some(p)).await;
                 coq = format!("CMut {} {} [{}]", defs, gn(A), ment(head(1, Some(pr.room), now, false, Some((pr.room, pr.author))),
                     vec![ment(head(2, Some(cr.room), now, true, Some((cr.room, cr.author))), vec![])]));
                 refused = res.is_err();
@@ -288,6 +302,43 @@ async fn scenario(rng: &mut Rng, out: &mut Out, sidx: usize) {
                 refused = res.is_err();
                 if res.is_ok() { scn.rows[i].alive = false; }
                 opname = "delete";
+            }
+            9 | 10 | 11 => { // A changes the definition of a room (it may or may not be admin of it)
+                let rid = 1 + rng.below(2);
+                let g = 1 + rng.below(3);
+                let k = if rng.chance(1, 2) { A } else { C };
+                let en = !rng.chance(1, 3);
+                let mut p = Parameters::default();
+                p.add("r", scn.room_ids[&rid].clone()).unwrap();
+                let known_group = scn.auth_ids[&rid].contains_key(&g);
+                let (ev, text) = if !known_group {
+                    (Ev::Group(g), format!(r#"mutate {{ sys.Room{{ id:$r authorisations:[{{ name:"ga{g}" }}] }} }}"#))
+                } else {
+                    p.add("g", scn.auth_ids[&rid][&g].clone()).unwrap();
+                    match rng.below(8) {
+                        0 | 1 => { p.add("k", key_b64(k, &a, &b)).unwrap(); p.add("en", en).unwrap();
+                               (Ev::Admin(k, now, en), r#"mutate { sys.Room{ id:$r admin:[{verif_key:$k enabled:$en}] } }"#.to_string()) }
+                        2 | 3 => { p.add("k", key_b64(k, &a, &b)).unwrap(); p.add("en", en).unwrap();
+                               (Ev::User(g, k, now, en), r#"mutate { sys.Room{ id:$r authorisations:[{ id:$g users:[{verif_key:$k enabled:$en}] }] } }"#.to_string()) }
+                        4 => { p.add("k", key_b64(k, &a, &b)).unwrap(); p.add("en", en).unwrap();
+                               (Ev::UAdmin(g, k, now, en), r#"mutate { sys.Room{ id:$r authorisations:[{ id:$g user_admin:[{verif_key:$k enabled:$en}] }] } }"#.to_string()) }
+                        _ => { let e = rng.below(4); let sf = rng.chance(2, 3); let al = rng.chance(1, 3);
+                               p.add("e", if e == 0 { "*".to_string() } else { ename(e) }).unwrap(); p.add("s", sf).unwrap(); p.add("al", al).unwrap();
+                               (Ev::Right(g, e, now, sf, al), r#"mutate { sys.Room{ id:$r authorisations:[{ id:$g rights:[{entity:$e mutate_self:$s mutate_all:$al}] }] } }"#.to_string()) }
+                    }
+                };
+                let res = a.db.mutate_raw(&text, Some(p)).await;
+                coq = format!("CRoomMut {} {} {} {} [{}]", defs, gn(A), gn(rid), gz(now), ev.coq());
+                refused = res.is_err();
+                if let Ok(r) = res {
+                    if let Ev::Group(g) = &ev {
+                        let id = base64_encode(&r.mutate_entities[0].sub_nodes.get("authorisations").unwrap()[0].node_to_mutate.id);
+                        scn.auth_ids.get_mut(&rid).unwrap().insert(*g, id);
+                    }
+                    scn.defs.iter_mut().find(|d| d.0 == rid).unwrap().1.push(ev);
+                    all_dates.push(now);
+                }
+                opname = "room-mutation";
             }
             _ => { // reference deletion (existing reference, or a reference that does not exist)
                 let parents: Vec<usize> = alive.iter().cloned().filter(|i| scn.rows[*i].ent == 1).collect();
@@ -313,14 +364,16 @@ async fn scenario(rng: &mut Rng, out: &mut Out, sidx: usize) {
             }
         }
         let after = dump(&a).await;
-        let changed = before != after;
+        let changed = before != after || before_rooms != dump_rooms(&a).await;
         out.push(Case { kind: format!("e2e-{opname}"), coq: format!("CE2E ({})", coq), obs: vec![refused as i64, changed as i64],
                         meta: json!({"scenario": sidx, "op": opname, "refused": refused, "changed": changed, "now": now}) });
     }
     verif_clock::clear();
-    drop(a.db); drop(b.db);
     let _ = std::fs::remove_dir_all(&a.path);
     let _ = std::fs::remove_dir_all(&b.path);
+    // the services own threads that still hold connections: they are left running until the process exits
+    std::mem::forget(a);
+    std::mem::forget(b);
 }
 
 #[tokio::main(flavor = "multi_thread", worker_threads = 4)]
@@ -333,4 +386,5 @@ async fn main() {
         scenario(&mut r, &mut out, s).await;
     }
     out.finish();
+    std::process::exit(0);
 }
